@@ -16,6 +16,25 @@ package annotations
 //@ spec func mapperWF(c *Mapper) bool = c != nil && forall k string :: in(k, c.configByKey) ==>
 //@     forall i int :: 0 <= i && i < len(c.configByKey[k]) ==> c.configByKey[k][i] != nil && c.configByKey[k][i].value != nil
 
+// C06 — the first writer of a key on a path keeps it: a later annotation with
+// the same key on the same path changes nothing and is reported as a conflict
+// exactly when its value differs
+//@ spec func keyConfigsWF(c *Mapper) bool = c != nil && c.configByPath != nil && forall h hatypes.PathLinkHash :: in(h, c.configByPath) ==> c.configByPath[h] != nil && c.configByPath[h].keys != nil && forall k string :: in(k, c.configByPath[h].keys) ==> c.configByPath[h].keys[k] != nil
+//@ spec func hasKey(c *Mapper, h hatypes.PathLinkHash, key string) bool = in(h, c.configByPath) && in(key, c.configByPath[h].keys)
+//@ func (*Mapper).addAnnotation
+//@   props C06
+//@   requires wf: keyConfigsWF(c) && path != nil
+//@   modifies heap
+//@   ensures first-writer: old(hasKey(c, path.hash, key)) ==> result == (old(c.configByPath[path.hash].keys[key].Value) != value)
+//@ end
+//@ func (*Mapper).addAnnotation#present
+//@   props C06
+//@   requires wf: keyConfigsWF(c) && path != nil
+//@   requires present: hasKey(c, path.hash, key)
+//@   modifies nothing
+//@   ensures conflict: result == (c.configByPath[path.hash].keys[key].Value != value)
+//@ end
+
 //@ func (*Mapper).Get
 //@   props C06 C09
 //@   requires wf: mapperWF(c)
@@ -226,4 +245,16 @@ package annotations
 //@       ==> closedOAuth(d.backend.Paths[k])
 //@   loop 1 invariant safe:   forall k int :: 0 <= k && k < $idx(1) ==>
 //@       closedOAuth(d.backend.Paths[k]) || d.backend.Paths[k].AuthExternal == old(d.backend.Paths[k].AuthExternal)
+//@ end
+
+// ---------------------------------------------------------------------------
+// C06 — results must not depend on map iteration order
+
+// the oauth backend of a namespace is looked up over hosts in hostname order
+// (never over a Go map): the first matching path wins
+//@ func (*updater).findBackend#determined
+//@   props C06
+//@   no-map-range
+//@   lemma first: result != nil ==> exists i int, k int :: 0 <= i && i < len(hosts) && 0 <= k && k < len(hosts[i].Paths) && result == &hosts[i].Paths[k].Backend
+//@   loop 1 invariant none: 0 <= $idx(1) && $idx(1) <= len(hosts)
 //@ end
